@@ -141,8 +141,12 @@ def check_c13(tier, only_cases=None):
     run_harness("wire", ["c13", cpath], trace)
     stats, viols = validate_trace("WireTrace", trace, prop, f"{prop}-{tier}", TRACE_CFG, nchunks=4, independent=True)
     ntempl = len(set(json.loads(l)["tmpl"] for l in open(trace)))
+    agent = {}
+    if only_cases is None:
+        import check_agent
+        agent = check_agent.side_run(prop, tier, verdict)
     return finish(prop, tier, t0, verdict, stats, viols, gr,
-                  {"samples": [json.loads(open(trace).readline())["doc"], cases[len(cases) // 2]], "rewrite_subsets": len(cases),
+                  {"configuration_data": agent, "samples": [json.loads(open(trace).readline())["doc"], cases[len(cases) // 2]], "rewrite_subsets": len(cases),
                    "message_templates": ntempl, "exhaustive": True,
                    "rule": "message templates (server hello; ok / rpc-error / data / empty data / bare replies; load-configuration results "
                            "ok / errors / warning+ok) x every subset of 7 information-preserving rewrites (prefix vs default namespace, "
@@ -150,7 +154,9 @@ def check_c13(tier, only_cases=None):
                            "empty-element form), each parsed by the real session / reply readers; the outcome (value or error class) must "
                            "equal that of the plain serialisation; non-trivial = at least one rewrite applied"},
                   ["the data of <get> is a raw fragment by design and is compared by its XML information content",
-                   "the agent's configuration readers are exercised by C16 (statement shapes) rather than here"],
+                   "configuration data: the unmodified agent binary runs twice from the same router state, once against the fake router's "
+                   "plain serialisation and once with every positive reply (open, get-config running / ephemeral, load results, commit, close) "
+                   "re-serialised in the style; AgentTrace.tla (TwinViol) demands the same outcome and the same resulting configuration"],
                   lambda k: cases[k] if isinstance(k, int) and k < len(cases) else None, trace)
 
 def check_c10(tier, only_cases=None):
@@ -197,8 +203,12 @@ def check_c14(tier, only_cases=None):
         e = json.loads(l)
         key = e.get("hello") or ",".join(r.split(":")[0] for r in e.get("res", ["panic"]))
         outcomes[key] = outcomes.get(key, 0) + 1
+    agent = {}
+    if only_cases is None:
+        import check_agent
+        agent = check_agent.side_run(prop, tier, verdict)
     return finish(prop, tier, t0, verdict, stats, viols, gr,
-                  {"samples": [cases[0], cases[len(cases) // 2], cases[-1]], "mutation_cases": len(cases), "outcome_histogram": outcomes,
+                  {"agent_readers": agent, "samples": [cases[0], cases[len(cases) // 2], cases[-1]], "mutation_cases": len(cases), "outcome_histogram": outcomes,
                    "exhaustive": False,
                    "rule": "mutation scripts enumerated by TLC over 7 message templates: truncation / byte flips (3 masks) / invalid UTF-8 at 9 "
                            "positions, splices of every slice pair, duplicated element, 40-digit integers, wrong namespace, 3000-deep nesting, "
@@ -206,7 +216,10 @@ def check_c14(tier, only_cases=None):
                            "request 2 of 3 outstanding requests on a real session, followed by valid replies to 1 and 3; non-trivial = mutated"},
                   ["bounded exploration: totality over all byte strings is not proved",
                    "a garbage reply is attributed by the message-id a lenient reader finds in it; if it names another outstanding request only "
-                   "'no panic, no hang' is demanded"],
+                   "'no panic, no hang' is demanded",
+                   "agent readers: the unmodified agent binary against the fake router with one positive reply (get-config running / "
+                   "ephemeral, load results; thorough: every request kind) damaged by each of 30 mutations; the run must end within 15 s "
+                   "without a panic message"],
                   lambda k: cases[k] if isinstance(k, int) and k < len(cases) else None, trace)
 
 def check(prop, tier):
@@ -214,6 +227,9 @@ def check(prop, tier):
 
 def replay(prop, path):
     payload = json.load(open(path))
+    if "scenario" in payload:
+        import check_agent
+        return check_agent.replay(prop, path)
     c = payload.get("case")
     if prop == "C09":
         return check_c09("quick", only=c)
